@@ -69,6 +69,10 @@ TEXTUAL = {
         "in an indented `import c as y` the module name is not recognised as part of an import statement "
         "(Worder.is_import_statement compares the statement start with column 0) and is evaluated as a variable: it "
         "is reported as an occurrence of a visible variable c (a rename of the variable would rewrite the import)"),
+    "global-in-class-body-as-attribute": (
+        "y = 0\nclass K:\n    global y\n    def m(self):\n        self.y = 1\n        return self.y\nprint(y)\n",
+        "a `global y` statement in a class body makes y an attribute of the class for rope (the module's PyName is "
+        "stored in the class names): self.y is reported as an occurrence of the global y"),
     "from-import-at-eof": (
         "def c():\n    pass\nfrom ext import c",
         "find_occurrences raises IndexError for a name that is the last word of a file ending, without a newline, in "
@@ -76,7 +80,7 @@ TEXTUAL = {
 }
 
 EXAMPLE = (
-    "import os\nlimit = 10\ndef scale(v, factor=2):\n    return v * factor\nclass Box:\n    size = 1\n"
+    "import os\nlimit = 10\ndef scale(v, factor=limit):\n    return v * factor\nclass Box:\n    size = 1\n"
     "    def __init__(self, size):\n        self.size = size\n"
     "    def grow(self, limit):\n        self.size = scale(self.size, factor=limit)\n        return Box(size=self.size)\n"
     "def use(limit):\n    global size\n    size = limit\n    return scale(factor=size, v=limit)\nsize = 3\n"
@@ -87,7 +91,7 @@ EXAMPLE = (
 def witness_def(name, src):
     o = L.observe(src, with_rope=False)
     tr = o.tr
-    idents = sorted({t.name for t in o.tokens} | {"len", "__init__", "__call__", "staticmethod", "classmethod"})
+    idents = sorted({t.name for t in o.tokens} | {"len", "__init__", "__call__", "staticmethod", "classmethod", "property"})
     import builtins as _b
     bi = [x for x in idents if x in set(dir(_b))]
     init, call, odd = tr.g_ident("__init__"), tr.g_ident("__call__"), tr.g_idents(["staticmethod", "classmethod"])
@@ -100,6 +104,7 @@ def witness_def(name, src):
     out.append("Definition init_%s : ident := %s." % (name, init))
     out.append("Definition call_%s : ident := %s." % (name, call))
     out.append("Definition odd_%s : list ident := %s." % (name, odd))
+    out.append("Definition prop_%s : ident := %s." % (name, tr.g_ident("property")))
     out.append("Definition kwl_%s : list N := [%s]." % (name, "; ".join("%d%%N" % i for i in sorted(o.kwlike))))
     out.append("(* tokens: %s *)" % ", ".join("%s#%d" % (t.name, t.id) for t in o.tokens))
     return "\n".join(out) + "\n"
